@@ -21,6 +21,10 @@ structure DSt where
       prefix the provider arms its timer for exactly one interval, and in virtual time its handler then reads the clock at
       exactly the deadline — a coincidence a real clock does not produce — and shifts slots by up to one interval -/
   strict : Bool := false
+  /-- reprovide interval of the scenario, seconds -/
+  interval : Nat := 3600
+  /-- per kept key: the latest instant (virtual seconds) at which it was advertised, or from which the obligation runs -/
+  last : List (Nat × Nat) := []
   deriving Repr
 
 def ids (s : String) : List Nat := if s == "" || s == "-" then [] else (s.splitOn ",").map String.toNat!
@@ -45,7 +49,7 @@ def step (d : DSt) (line : String) : DSt × String :=
     | some "offline" => { d with online := false, pending := [] }
     | some "restart" => { d with pending := [] }
     | some "online" => { d with online := true }
-    | some "sp" => { strict := C09.kvOf ws "strict" == "1" }
+    | some "sp" => { strict := C09.kvOf ws "strict" == "1", interval := ((C09.kvOf ws "interval").toNat?).getD 3600 }
     | _ => d
   let kept := sequential d1.kept (opsOf ws)
   ({ d1 with kept := kept }, s!"set={C01.showNats (C01.sortNats kept)}")
@@ -56,8 +60,8 @@ def parseMap (s : String) : List (Nat × List Nat) :=
     | [k, ps] => some (k.toNat!, if ps == "" then [] else (ps.splitOn ".").map String.toNat!)
     | _ => none
 
-/-- the end-to-end monitor -/
-def verdict (d : DSt) (line : String) : DSt × String :=
+/-- the end-to-end monitor over observation windows -/
+def verdictW (d : DSt) (line : String) : DSt × String :=
   if line.startsWith "#" then ({}, line) else
   let (inp, impl) := splitTab line
   let (d1, _) := step d inp
@@ -118,5 +122,44 @@ def verdict (d : DSt) (line : String) : DSt × String :=
     if !missing.isEmpty then (d2, s!"FAIL key {missing.headD 0} was not advertised to all of its nearest peers when it was provided")
     else (d2, "ok")
   | _ => (d2, "ok")
+
+/-- walk the send instants of one key: the first gap longer than `bound` -/
+def firstGap (bound : Nat) : Nat → List Nat → Option (Nat × Nat)
+  | _, [] => none
+  | r, t :: ts => if t > r + bound then some (r, t) else firstGap bound (max r t) ts
+
+/-- the end-to-end monitor: the window monitor, and in strict scenarios the gap between two consecutive advertisements of
+    a key that stayed kept while the node stayed online and the swarm stayed the same (restarts included): at most one
+    interval plus the allowed delay (a twelfth of the interval in the harness) plus five minutes for the work itself -/
+def verdict (d : DSt) (line : String) : DSt × String :=
+  if line.startsWith "#" then ({}, line) else
+  let (d', out) := verdictW d line
+  let (inp, impl) := splitTab line
+  let ws := words inp
+  let iw := words impl
+  let now := ((C09.kvOf iw "now").toNat?).getD 0
+  let times := parseMap (C09.kvOf iw "times")
+  let timesOf (k : Nat) : List Nat := ((times.find? (·.1 == k)).map (·.2)).getD []
+  let named := (opsOf ws).map fun o => match o with | .start _ k => k | .stop k => k | .once k => k
+  let resetAll := !d.online || !d'.online || ws.head? == some "swarm" || ws.head? == some "online" || ws.head? == some "sp"
+    || (C09.kvOf iw "now") == ""
+  let bound := d'.interval + d'.interval / 12 + 300
+  let refOf (k : Nat) : Option Nat := (d.last.find? (·.1 == k)).map (·.2)
+  let checked := if d'.strict && !resetAll then d.kept.filter fun k => d'.kept.contains k && !named.contains k else []
+  let gaps := checked.filterMap fun k =>
+    match refOf k with
+    | none => none
+    | some r => (firstGap bound r (timesOf k ++ [now])).map fun g => (k, g)
+  let last' := d'.kept.map fun k =>
+    match refOf k with
+    | some r => if resetAll || named.contains k then (k, now) else (k, (timesOf k).foldl max r)
+    | none => (k, now)
+  let d'' := { d' with last := last' }
+  match gaps.head? with
+  | some (k, (a, b)) =>
+    if out == "ok" then
+      (d'', s!"FAIL key {k} kept for reproviding was not advertised between t={a}s and t={b}s ({b - a}s, the node online, the swarm unchanged): longer than one interval plus the allowed delay [gap]")
+    else (d'', out)
+  | none => (d'', out)
 
 end KadDHT.Driver.C17
